@@ -382,7 +382,8 @@ def segment_of(trace, l):
                 break
             lines.append(line)
     start = len(lines) - 1
-    while start > 0 and '"ev":"init"' not in lines[start][:4000] and json.loads(lines[start]).get('ev') != 'init':
+    firsts = ('init', 'init2', 'hinit', 'hist', 'join', 'chain', 'awalk', 'hostile')
+    while start > 0 and json.loads(lines[start]).get('ev') not in firsts:
         start -= 1
     return [json.loads(x) for x in lines[start:]]
 
@@ -392,12 +393,20 @@ def write_replay(prop, n, v, extra=None):
     path = V + '/evidence/replays/%s-%d.json' % (prop, n)
     seg = segment_of(v['trace'], v['l']) if 'trace' in v and 'l' in v else []
     init = seg[0] if seg else {}
-    rep = {'property': prop, 'conjs': v.get('conjs'), 'sig': v.get('sig'),
-           'cfg': init.get('cfg'), 'names': init.get('names'), 'b': init.get('b'), 'universe': init.get('universe'),
-           'init_layers': init.get('layers'), 'init_tree': [[e['p'], e['md']['k'], e['rd']['v']] for e in init.get('obs', {}).get('ents', [])[1:]] if init else None,
-           'ops': [{k: e.get(k) for k in ('op', 'p', 'q', 'c', 'f', 'tick')} for e in seg[1:]],
-           'observed': {'res': seg[-1].get('res') if len(seg) > 1 else None},
-           'how_to_replay': './check --replay ' + path}
+    rep = {'property': prop, 'conjs': v.get('conjs'), 'sig': v.get('sig'), 'how_to_replay': './check --replay ' + path}
+    if init.get('ev') == 'init':
+        rep.update({'cfg': init.get('cfg'), 'names': init.get('names'), 'b': init.get('b'), 'universe': init.get('universe'),
+                    'init_layers': init.get('layers'),
+                    'init_tree': [[e['p'], e['md']['k'], e['rd']['v']] for e in init.get('obs', {}).get('ents', [])[1:]],
+                    'ops': [{k: e.get(k) for k in ('op', 'p', 'q', 'c', 'f', 'tick')} for e in seg[1:] if e.get('ev') == 'call'],
+                    'observed': {'res': seg[-1].get('res') if len(seg) > 1 else None},
+                    'fault': {k: seg[-1].get(k) for k in ('k', 'n', 'method', 'op', 'p')} if seg[-1].get('ev') == 'fcall' else None})
+    elif init.get('ev') == 'hist':
+        rep['conc_spec'] = {k: init.get(k) for k in ('prop', 'cfg', 'universe', 'init', 'pre_remove', 'progs', 'bound')}
+        rep['observed'] = {k: init.get(k) for k in ('results', 'final', 'schedule')}
+    else:
+        # other trace kinds: keep the raw events (without the bulky parts)
+        rep['events'] = [{k: val for k, val in e.items() if k not in ('seq',)} for e in seg[-4:]]
     if extra:
         rep.update(extra)
     json.dump(rep, open(path, 'w'), indent=1)
